@@ -30,9 +30,7 @@ fn(C + 'operator<', TU, serves=['C03'], pure=True,
    ensures=[('lt_by_modulus', 'result == (re*re + im*im < rhs.re*rhs.re + rhs.im*rhs.im)')])
 fn(C + 'operator>', TU, serves=['C03'], pure=True,
    ensures=[('gt_by_modulus', 'result == (re*re + im*im > rhs.re*rhs.re + rhs.im*rhs.im)')])
-fn(C + 'operator=', TU, serves=['C03'], returns_ref='this', assigns=['this'],
-   ensures=[('assign', 'this == old.p0')], verify=False, trusted=True,
-   notes='compiler-generated memberwise copy assignment')
+# cmplx_t::operator= is compiler-generated: the executor copies the object memberwise (engine/calls.py)
 
 # left-oriented scalar (op) cmplx_t
 for op, sym in (('operator+', '+'), ('operator-', '-'), ('operator*', '*'), ('operator/', '/')):
